@@ -106,7 +106,7 @@ Lemma send_gap_fill a h s :
   send_msg (gap_fill_msg a h) s = Ok (sent (gap_frame a h (clock s + 1)) s).
 Proof.
   intros Hs Hk. unfold send_msg. rewrite gates_ok by assumption.
-  cbn. unfold persist. cbn. Show. rewrite Hk. reflexivity.
+  cbn. unfold persist. cbn. unfold has_key in Hk. rewrite Hk. reflexivity.
 Qed.
 
 Definition copy_frame (r : row) (k : Z) : row :=
@@ -131,12 +131,12 @@ Proof.
   destruct (sess_false_types _ Ht) as [Ht1 Ht4]. cbn [m_type m_seq m_fields].
   rewrite Ht1. cbn [andb]. unfold select_seq. cbn [m_type m_seq m_fields]. rewrite Ht4.
   unfold clean in Hc. apply andb_true_iff in Hc as [Hc1 Hc2]. apply negb_true_iff in Hc1, Hc2.
-  rewrite (get_tag_app_notin _ _ _ Hc1). cbn [get_tag find fst snd].
-  replace (str_eqb (fst (T_PossDupFlag, V_Y)) T_PossDupFlag) with true by reflexivity. cbn [snd].
-  replace (str_eqb V_Y V_Y) with true by reflexivity.
-  rewrite filter_app. unfold codec_row in Hcr. rewrite (filter_all _ _ Hcr).
-  replace (filter (fun f0 : str * str => negb (header_skipped (fst f0)))
-                  [(T_PossDupFlag, V_Y); (T_OrigSendingTime, r_time r)])
-    with [(T_PossDupFlag, V_Y); (T_OrigSendingTime, r_time r)] by reflexivity.
-  unfold persist. cbn [r_seq rows]. rewrite Hk. reflexivity.
+  rewrite (get_tag_app_notin _ _ _ Hc1).
+  change (get_tag T_PossDupFlag [(T_PossDupFlag, V_Y); (T_OrigSendingTime, r_time r)]) with (Some V_Y).
+  change (str_eqb V_Y V_Y) with true. cbv iota beta.
+  rewrite filter_app. unfold codec_row in Hcr. rewrite filter_all by exact Hcr.
+  change (filter (fun f0 : field => negb (header_skipped (fst f0)))
+                 [(T_PossDupFlag, V_Y); (T_OrigSendingTime, r_time r)])
+    with [(T_PossDupFlag, V_Y); (T_OrigSendingTime, r_time r)].
+  unfold persist. cbn [r_seq rows]. unfold has_key in *. rewrite Hk. reflexivity.
 Qed.
